@@ -691,6 +691,69 @@ pub fn run(run: &Run) {
         reports.push(json!({"plan": name, "prefix_len": prefix.len(), "depth_bound": depth, "extended_alphabet": extended, "states": stats.states,
             "transitions": stats.transitions, "level_sizes": stats.level_sizes, "no_merge_pass": {"depth": nm.max_depth, "paths": nstats.states}}));
     }
+    // ---- long history: hundreds of play / publish cycles on one connection (transaction ids and stream ids far
+    //      beyond what the bounded graphs reach) ----
+    {
+        let g = G { c: Counters::new(&NAMES), max_outstanding: 100_000, extended: false };
+        let name = "300 play/publish cycles";
+        let mut cur = fresh_state();
+        let mut done: Vec<Value> = Vec::new();
+        let mut ok = true;
+        let mut steps = 0u64;
+        let mut apply = |cur: &mut St, a: CAct, done: &mut Vec<Value>| -> bool {
+            let o = g.step(cur, &a);
+            ti += o.impl_steps;
+            tt += 1;
+            steps += 1;
+            if done.len() < 40 {
+                done.push(describe_cact(&a));
+            }
+            if let Some((sig, d)) = o.viol.into_iter().next() {
+                run.violation(&format!("{}/long-history", sig), &format!("{} ; after {} steps of '{}'", d, steps, name), json!({"plan": name, "first_ops": done, "failing_op": describe_cact(&a)}));
+                return false;
+            }
+            match o.succ.into_iter().next() {
+                Some(n) => {
+                    *cur = n;
+                    true
+                }
+                None => false,
+            }
+        };
+        let last_tx = |st: &St| st.model.out.keys().next_back().cloned().unwrap_or(0) as f64;
+        ok = ok && apply(&mut cur, CAct::RequestConnection { app: APP_A.into() }, &mut done);
+        let tx = last_tx(&cur);
+        ok = ok && apply(&mut cur, CAct::Result { tx, stream: None }, &mut done);
+        for cycle in 0..300u32 {
+            if !ok {
+                break;
+            }
+            let sid = 1 + cycle * 7;
+            if cycle % 2 == 0 {
+                ok = ok && apply(&mut cur, CAct::RequestPlayback { key: KEY1.into() }, &mut done);
+                let tx = last_tx(&cur);
+                ok = ok && apply(&mut cur, CAct::Result { tx, stream: Some(sid as f64) }, &mut done);
+                ok = ok && apply(&mut cur, CAct::OnStatus { code: "NetStream.Play.Start".into() }, &mut done);
+                ok = ok && apply(&mut cur, CAct::Audio { msid: sid, ts: cycle, len: 2 }, &mut done);
+                ok = ok && apply(&mut cur, CAct::Video { msid: sid + 1, ts: cycle, len: 2 }, &mut done);
+                ok = ok && apply(&mut cur, CAct::StopPlayback, &mut done);
+                ok = ok && apply(&mut cur, CAct::Audio { msid: sid, ts: cycle, len: 2 }, &mut done);
+            } else {
+                ok = ok && apply(&mut cur, CAct::RequestPublishing { key: KEY2.into(), kind: (cycle % 3) as u8 % 2 }, &mut done);
+                let tx = last_tx(&cur);
+                ok = ok && apply(&mut cur, CAct::Result { tx, stream: Some(sid as f64) }, &mut done);
+                ok = ok && apply(&mut cur, CAct::OnStatus { code: "NetStream.Publish.Start".into() }, &mut done);
+                ok = ok && apply(&mut cur, CAct::PublishVideo { ts: cycle, len: 3, droppable: cycle % 4 == 1 }, &mut done);
+                ok = ok && apply(&mut cur, CAct::PingBurst { ts: cycle, n: 2 }, &mut done);
+                ok = ok && apply(&mut cur, CAct::StopPublishing, &mut done);
+                ok = ok && apply(&mut cur, CAct::PublishAudio { ts: cycle, len: 1, droppable: false }, &mut done);
+            }
+        }
+        run.count("long_history_steps", steps);
+        if ok {
+            run.count("long_history_scripts_completed", 1);
+        }
+    }
     run.merge_hist(&agg.map());
     run.set("states", json!(ts));
     run.set("transitions", json!(tt));
